@@ -12,13 +12,15 @@ import report as RPT
 
 
 class Ctx:
-    def __init__(self, tier):
+    def __init__(self, tier, base_feature=""):
         self.tier = tier
+        self.base_feature = base_feature
         self._facts = {}
         self._controls = None
         self.cache_hits = {}
 
     def facts(self, feature=""):
+        feature = feature or self.base_feature
         if feature not in self._facts:
             d, hit = F.extract(F.REPO, feature)
             self.cache_hits[feature or "default"] = hit
@@ -77,6 +79,34 @@ def main(argv):
         traceback.print_exc()
         print("NO VERDICT for %s: internal checker error" % prop)
         return 2
+    if tier == "thorough" and getattr(mod, "THOROUGH_SECOND_CONFIG", True) and prop != "C18":
+        # thorough = every rule of the property again on the `uuid` feature configuration (the second build
+        # configuration of the crate), merged under rule names suffixed with @uuid
+        ctx2 = Ctx("quick", base_feature="uuid")
+        ctx2._controls = ctx._controls
+        rep2 = RPT.Report(prop, tier)
+        try:
+            mod.run(ctx2, rep2)
+        except F.ExtractError as e:
+            print("NO VERDICT for %s (uuid configuration): %s" % (prop, e))
+            return 2
+        except Exception:
+            traceback.print_exc()
+            print("NO VERDICT for %s: internal checker error (uuid configuration)" % prop)
+            return 2
+        for i in rep2.instances:
+            if i["rule"].endswith("@uuid"):
+                continue
+            i = dict(i)
+            i["rule"] += "@uuid"
+            i["key"] += "@uuid" if i["status"] == "pass" else ""
+            rep.instances.append(i)
+        for f_ in rep2.floors:
+            f_ = dict(f_); f_["rule"] += "@uuid"; rep.floors.append(f_)
+        rep.analysed_functions |= rep2.analysed_functions
+        if "uuid" not in rep.configs:
+            rep.configs.append("uuid")
+        ctx.cache_hits.update(ctx2.cache_hits)
     rep.context["fact_cache_hit"] = ctx.cache_hits
     if replay:
         try:
